@@ -60,10 +60,16 @@ type Buffer struct {
 	buf *bytes.Buffer
 }
 
+// maxSkipDepth is the deepest nesting of struct/list/map fields the reader skips.
+// Skipping recurses once per nesting level, so without a limit a packet made of
+// container heads only would exhaust the goroutine stack.
+const maxSkipDepth = 64
+
 // Reader is wrapper of bytes.Reader
 type Reader struct {
-	ref []byte
-	buf *bytes.Reader
+	ref       []byte
+	buf       *bytes.Reader
+	skipDepth int
 }
 
 //go:nosplit
@@ -436,7 +442,7 @@ func (b *Reader) skipFieldMap() error {
 		return err
 	}
 
-	for i := int32(0); i < length*2; i++ {
+	for i, e := int64(0), int64(length)*2; i < e; i++ {
 		tyCur, _, err := b.readHead()
 		if err != nil {
 			return err
@@ -482,6 +488,14 @@ func (b *Reader) skipFieldSimpleList() error {
 }
 
 func (b *Reader) skipField(ty byte) error {
+	switch ty {
+	case MAP, LIST, StructBegin:
+		if b.skipDepth >= maxSkipDepth {
+			return fmt.Errorf("skip field: nesting deeper than %d", maxSkipDepth)
+		}
+		b.skipDepth++
+		defer func() { b.skipDepth-- }()
+	}
 	switch ty {
 	case BYTE:
 		return b.skip(1)
